@@ -1196,3 +1196,34 @@ def mustpass_inventory(P, files):
         if must:
             out[fn['qual']] = sorted(must)
     return out
+
+
+def wiring_inventory(P, files):
+    """{owner fn qual: {"callee#argindex <- normalised origin": count}} for every call to a workspace function in the
+    functions (and closures) defined in `files`. Plain locals / parameters (`_`) and closures are not recorded."""
+    out = {}
+    for fn in fns_in_files(P, files):
+        if fn.get('mac'):
+            continue
+        body = P.body(fn)
+        o = None
+        for bi, t in body.calls():
+            c = t.get('callee') or {}
+            local = (c.get('res') or {}).get('local') or c.get('local')
+            tr = (c.get('trait') or {}).get('trait', '')
+            if not (local or tr.startswith('mls_rs')):
+                continue
+            cn = callee_name(t)
+            if re.search(r'(Clone::clone|fmt::|Default::default|::deref(_mut)?$|::from$|::into$|::as_ref$|::borrow|Mls(Size|Encode|Decode)::|IntoAnyError)', cn):
+                continue
+            if o is None:
+                o = Origins(body)
+            oq = owner_qual(P, fn)
+            for i, a in enumerate(t['args']):
+                s = normalise_operand(o.op_str(a))
+                if s in ('_', '?') or s.startswith('{closure') or re.fullmatch(r'[_.\d]+', s):
+                    continue
+                key = '%s#%d <- %s' % (cn, i, s)
+                out.setdefault(oq, {})
+                out[oq][key] = out[oq].get(key, 0) + 1
+    return out
